@@ -50,6 +50,11 @@ def step (st : St) (op : String) : St × Option String :=
     let c := CafsDrv.parseContent ((kvGet kv "content").getD "")
     -- the consumable store lists its keys in sorted order
     ({ st with tree := insertT (name, c) (st.tree.filter (·.1 != name)) }, none)
+  | "uploadf" :: rest =>
+    -- judge: the same upload with ONE transiently failing store call either failed or produced the
+    -- same entries as the fault-free upload (which the `upload` line compares with the model)
+    let got := (kvGet (kvs rest) "got").getD ""
+    (st, some (if got == "same" || got == "err" then "sound" else "UNSOUND"))
   | "upload" :: rest =>
     let kv := kvs rest
     let keysArg := (kvGet kv "keys").getD "*"
